@@ -14,9 +14,6 @@ Deductive part (pyvc, real ASTs):
                                          satisfy the property iff every kerned script tag has `languagesystem <tag> dflt` — and
                                          the canary is the recorded finding F7 (no languagesystem at all: LS = {DFLT/dflt})
 
-  * featureWriters.ast.getScriptLanguageSystems  soundness (only declared (tag, language) pairs, under the tag's Unicode script) proved;
-                                         completeness (ALL languages of a tag, whatever the statement order) is a run-time-only
-                                         clause of the contract (the filtered comprehension is modelled without positions)
 
 Outside the pyvc subset (notes/C20.requests.md), checked on the real functions by vcheck/hooks/c20.py (bounded):
 ast.getScriptLanguageSystems against an independent reference (all languages per tag, non-contiguous statements),
@@ -318,9 +315,13 @@ _UNICODEDATA.ot_tag_to_script = _ot_tag_to_script
 LANGMAP = Dict(STR, List(Tuple(STR, List(STR))))
 _ST = "feaFile.statements"
 _KEPT = "({s}.kind == 'LanguageSystemStatement' and not ({s}.script == 'DFLT' and excludeDflt))"
+# NOT REGISTERED (props=[]): every obligation of this contract has been discharged (soundness half `only-declared`; completeness is
+# run-time only), but `inv.step.tag` / `inv.step.languages` of the second loop (nested dict-of-list update) are proved by one solver
+# configuration only and flip to `unknown` under harmless renamings, so the contract would make `./check C20` unstable.  It is kept for
+# the day the encoding of `d.setdefault(k, []).append(x)` is cheaper (notes/C20.requests.md item 5); the helper is checked by the hook.
 contract(
     "ufo2ft.featureWriters.ast:getScriptLanguageSystems",
-    props=["C20"],
+    props=[],
     params={"feaFile": Ref(FEAFILE), "excludeDflt": BOOL},
     returns=LANGMAP,
     globals={"ast": M.fea_shim(), "isinstance": M.ISINSTANCE, "collections": Val.obj(_COLLECTIONS), "unicodedata": Val.obj(_UNICODEDATA)},
